@@ -1516,8 +1516,52 @@
 		];
 		let b = universe_b();
 		for n in ["B/len1/#4", "B/len3/#2000"] { let m = &b.iter().find(|x| x.0 == n).unwrap().1; v.push((s(n), gen_class(m, Enc { pool: 0, rev: false, split: false, insn: 0 }))); }
+		// names that are no UTF-8: in every Utf8 constant that starts with `p/B` (the class itself, its inner classes, references to them) these three bytes become ED A0 80, the
+		// modified UTF-8 form of the unpaired surrogate U+D800 (a class file may hold it; Rust strings cannot, so every message that prints such a name goes through a fallible conversion)
+		let mut odd = vec![];
+		for (name, bytes) in v.iter().take(5) {
+			let mut b2 = bytes.clone();
+			let mut hits = 0;
+			let mut i = 0;
+			while i + 6 <= b2.len() {
+				if b2[i] == 1 && b2[i + 1] == 0 && b2[i + 2] >= 3 && &b2[i + 3..i + 6] == b"p/B" { b2[i + 3..i + 6].copy_from_slice(&[0xED, 0xA0, 0x80]); hits += 1; i += 6; } else { i += 1; }
+			}
+			if hits > 0 { odd.push((format!("{name} with U+D800 for p/B in {hits} constants"), b2)); }
+		}
+		assert!(!odd.is_empty(), "harness: no seed file names p/B");
+		v.extend(odd);
 		v
 	}
+	// a method with code_length 65535 and a label at every bytecode offset 0..=65535 (LineNumberTable entries for 0..65534, one LocalVariableTable range ending at 65535):
+	// the reader hands out 65536 label ids from a u16 counter
+	fn lb_u2(v: &mut Vec<u8>, x: u16) { v.extend_from_slice(&x.to_be_bytes()); }
+	fn lb_u4(v: &mut Vec<u8>, x: u32) { v.extend_from_slice(&x.to_be_bytes()); }
+	fn lb_utf8(v: &mut Vec<u8>, s: &str) { v.push(1); lb_u2(v, s.len() as u16); v.extend_from_slice(s.as_bytes()); }
+
+	fn class_with_a_label_at_every_offset() -> Vec<u8> {
+		let mut v = vec![0xCA, 0xFE, 0xBA, 0xBE, 0, 0, 0, 52];
+		// pool: 1 Utf8 A, 2 Class #1, 3 Utf8 java/lang/Object, 4 Class #3, 5 Utf8 m, 6 Utf8 ()V, 7 Utf8 Code, 8 Utf8 LineNumberTable, 9 Utf8 LocalVariableTable, 10 Utf8 x, 11 Utf8 I
+		lb_u2(&mut v, 12);
+		lb_utf8(&mut v, "A"); v.push(7); lb_u2(&mut v, 1); lb_utf8(&mut v, "java/lang/Object"); v.push(7); lb_u2(&mut v, 3);
+		for s in ["m", "()V", "Code", "LineNumberTable", "LocalVariableTable", "x", "I"] { lb_utf8(&mut v, s); }
+		lb_u2(&mut v, 0x0021); lb_u2(&mut v, 2); lb_u2(&mut v, 4); lb_u2(&mut v, 0); lb_u2(&mut v, 0);
+		lb_u2(&mut v, 1); // one method
+		lb_u2(&mut v, 0x0009); lb_u2(&mut v, 5); lb_u2(&mut v, 6); lb_u2(&mut v, 1);
+		// Code
+		let code_length: u32 = 65535;
+		let mut lnt = vec![]; lb_u2(&mut lnt, 65535); for pc in 0..65535u32 { lb_u2(&mut lnt, pc as u16); lb_u2(&mut lnt, 1); }
+		let mut lvt = vec![]; lb_u2(&mut lvt, 1); lb_u2(&mut lvt, 0); lb_u2(&mut lvt, 65535); lb_u2(&mut lvt, 10); lb_u2(&mut lvt, 11); lb_u2(&mut lvt, 0);
+		let mut code = vec![]; lb_u2(&mut code, 1); lb_u2(&mut code, 1); lb_u4(&mut code, code_length);
+		code.extend(std::iter::repeat(0u8).take(65534)); code.push(0xb1); // nop ... return
+		lb_u2(&mut code, 0); // exception table
+		lb_u2(&mut code, 2);
+		lb_u2(&mut code, 8); lb_u4(&mut code, lnt.len() as u32); code.extend_from_slice(&lnt);
+		lb_u2(&mut code, 9); lb_u4(&mut code, lvt.len() as u32); code.extend_from_slice(&lvt);
+		lb_u2(&mut v, 7); lb_u4(&mut v, code.len() as u32); v.extend_from_slice(&code);
+		lb_u2(&mut v, 0); // class attributes
+		v
+	}
+
 	fn check_damaged(t: &mut Tally, what: &str, b: &[u8]) {
 		t.at(what.as_bytes());
 		match guarded(|| read_class(&mut Cursor::new(b))) {
@@ -1529,6 +1573,7 @@
 	#[test]
 	fn no_panic_on_damaged_files() {
 		let mut t = Tally::new("no_panic_on_damaged_files");
+		check_damaged(&mut t, "a label at every bytecode offset 0..=65535 (65536 labels)", &class_with_a_label_at_every_offset());
 		let seeds = damaged_seeds();
 		println!("NOTE no_panic_on_damaged_files: {} seed files, {} bytes in total, sizes {:?}", seeds.len(), seeds.iter().map(|x| x.1.len()).sum::<usize>(), seeds.iter().map(|x| x.1.len()).collect::<Vec<_>>());
 		for (name, bytes) in seeds {
